@@ -454,7 +454,9 @@ class Executor:
             return Adt("[]", None, [self.operand(st, fr, o) for o in rv.a[0]])
         if k == "struct":
             path = rv.a[0]
-            return Adt(short_type(path), None, [self.operand(st, fr, o) for _, o in rv.a[1]])
+            # a closure value keeps its full type name (as `variant`) so that generic FnOnce/FnMut call sites can find its MIR item
+            return Adt(short_type(path), path.strip() if path.strip().startswith("{closure@") else None,
+                       [self.operand(st, fr, o) for _, o in rv.a[1]])
         if k == "adt":
             return self.make_adt(rv.a[0], [self.operand(st, fr, o) for o in rv.a[1]])
         if k == "len":
